@@ -40,6 +40,17 @@ Proof.
 Qed.
 
 
+(* a fixer whose replacement for a cell of a column kind is a value of that kind (the stock fixer:
+   False / NaT / NaN).  A replacement of another kind makes numpy coerce the whole column, and then the
+   two forms do differ (the Table constructor refuses the column, the JSON form keeps it as text) *)
+Definition kind_ok (vt : vtype) (v : value) : Prop :=
+  match vt, v with
+  | TOnoff, VBool _ | TFloat, VNum _ | TDatetime, VDate _ | TDatetime, VNaT => True
+  | _, _ => False
+  end.
+Lemma kind_ok_stock vt v : kind_ok vt v -> stock_value v.
+Proof. destruct vt, v; cbn; intro H; try exact I; destruct H. Qed.
+
 (* every table the reader parses holds stock values only, provided the fixer's replacement values are *)
 Section Stock.
 Variable parse_float : str -> option ftok.
@@ -105,6 +116,8 @@ End Stock.
 
 Lemma stock_fix_stock vt : stock_value (stock_fix vt).
 Proof. destruct vt; exact I. Qed.
+Lemma stock_fix_kind vt : kind_ok vt (stock_fix vt).
+Proof. destruct vt; exact I. Qed.
 End F.
 
 (* lifted to the event stream of a whole read: every table the 'pdtable' form delivers is the
@@ -151,12 +164,12 @@ Proof.
 Qed.
 
 Theorem forms_agree bs hist evs fin t i p :
-  (forall vt, stock_value (fix_value cfg vt)) ->
+  (forall vt, kind_ok vt (fix_value cfg vt)) ->
   deliver parse_float parse_dt cfg FPd filter raising bs hist = (evs, fin) ->
   In (EBlock t i (CtTable p)) evs ->
   table_to_json (p_name p) (p_dests p) (frame_cols render_dt float_repr p) = Some (json_of_ptable render_dt p).
 Proof.
   intros Hfix H Hin. destruct (deliver_tables _ _ _ _ _ _ _ H Hin) as (rows & _ & Hp).
-  exact (forms_agree_on_table render_dt float_repr parse_float parse_dt cfg Hfix _ _ _ Hp).
+  exact (forms_agree_on_table render_dt float_repr parse_float parse_dt cfg ltac:(intro vt; eapply kind_ok_stock; apply Hfix) _ _ _ Hp).
 Qed.
 End Stream.
